@@ -385,9 +385,11 @@ int32_t pstm_montgomery_reduce(psPool_t *pool, pstm_int *a, const pstm_int *m,
     uint32 cSize;
 
     pa = m->used;
-    if (pa > a->alloc)
+    if (pa + 1 > a->alloc || a->used > 2 * pa)
     {
-        /* Sanity test for bad numbers.  This will confirm no buffer overruns */
+        /* Sanity test for bad numbers.  This will confirm no buffer overruns:
+           pa + 1 digits are written back to a->dp, and a->used digits are
+           copied into (and carries propagated within) 2 * pa + 1 digits. */
         return PS_LIMIT_FAIL;
     }
 
